@@ -170,6 +170,26 @@ def run(ctx):
             pvlib.report_violation(ctx, "corr:tools.vocab", {"ops": ["tools.vocab " + hx(data)], "impl": hx(out), "model": m,
                                    "correspondence": "PV.Tools2.vocab vs bin/vocab"}, no_input=True, summary="vocab model/impl differ")
             break
+    # util::MutableVocab (word -> id through the same table, keyed by the word's 64-bit hash): distinct words get distinct consecutive ids,
+    # repeats get their first id, also for two words whose hashes agree in the low 32 bits (keys that collide modulo EVERY table size)
+    pair = pvlib.low32_pair(0, b"w")
+    vw = [b"the", b"cat", b"the", b"caf\xc3\xa9", b"x", b"cat"]        # (no empty word: its hash is 0, the table's empty-bucket marker, and no tool passes one) + ([pair[0], b"mid", pair[1], pair[0]] if pair else []) + [b"w%d" % i for i in range(300)] + [b"w7"]
+    ids, nxt, want_ids = {}, 1, []
+    for w_ in vw:
+        if w_ not in ids:
+            ids[w_] = nxt
+            nxt += 1
+        want_ids.append(ids[w_])
+    x = pvlib.run_lines(ctx.impl(), ["mvocab.run " + " ".join(hx(w_) for w_ in vw)], env=pvlib.san_env())[0]
+    ctx.count("mvocab.run", 1, [len(vw)])
+    want_x = "ok " + " ".join(map(str, want_ids)) + " | " + " ".join(map(str, want_ids)) + f" size={nxt}"
+    if x != want_x:
+        gl, wl = x.split(), want_x.split()
+        k = next((i for i, (p_, q_) in enumerate(zip(gl, wl)) if p_ != q_), min(len(gl), len(wl)))
+        pvlib.report_violation(ctx, "mvocab:" + hx(b" ".join(vw[:12]))[:80], {"ops": ["mvocab.run " + " ".join(hx(w_) for w_ in vw)], "impl": x[:600], "want": want_x[:600],
+                               "low32_pair": [p_.decode() for p_ in pair] if pair else None},
+                               summary=f"MutableVocab on {len(vw)} words (incl. {pair[0].decode() if pair else '-'} and {pair[1].decode() if pair else '-'}, whose 64-bit hashes differ only in the high 32 bits): "
+                                       f"answer {k} is {gl[k] if k < len(gl) else None}, a vocabulary gives {wl[k] if k < len(wl) else None}")
     # bin/substitute = VALUES in the table entries, written through the iterator FindOrInsert returns: the first line of every
     # sentence pair is copied and its 5th field remembered; every later line with the same pair is printed with the remembered
     # field.  Small cases through the Lean model and its table-free specification (theorem substitute_refines); a large one
